@@ -102,6 +102,33 @@ def init_for(rng, m, n):
     return qinit(gen.rand_initial_states(rng, m, n, on_grid=False, off_range=False))
 
 
+def extras(ctx, res, gen_cases):
+    """Beyond C12 (evidence only, never a verdict of this check): the ModelInitilizationError names every rule violated at the
+    model stage (Lifecycle!ReportComplete/ReportSound, phrases from Lifecycle!RuleMarker), and Model.replace gives a new,
+    validated object and leaves the original alone (Lifecycle!ReplaceClause)."""
+    from .. import tlc, units
+
+    rng = ctx.rng("extras")
+    cases = []
+    for g in gen_cases:
+        rules = [r for r in g["rules"] if r in ("R1", "R2", "R3", "R4")]
+        if len(rules) < 1 or len(rules) != len(g["rules"]):
+            continue
+        m = gen.rand_model(rng, {"max_cells": 400, "p_w": 1.0, "p_h": 1.0})
+        cases.append({"cid": len(cases), "fn": "errreport", "mdl": m, "rules": rules, "markers": g["markers"], "variant": len(cases)})
+    for field in ("n_periods", "description", "functions", "states"):
+        for _ in range(3):
+            cases.append({"cid": len(cases), "fn": "replace", "mdl": gen.rand_model(rng, {"max_cells": 400}), "field": field})
+    done = units.run_units(cases, chunk=10)
+    verdicts, st = tlc.validate_traces("TraceUnits", done)
+    bad = [(c["fn"], verdicts[c["cid"]]["v"][1:]) for c in done if verdicts[c["cid"]]["v"][0] != "ok"]
+    res.merge_cov(extras_error_report_and_replace_cases=len(done), extras_error_report_and_replace_agree=len(done) - len(bad),
+                  states=st["distinct"], transitions=st["generated"])
+    if bad:
+        res.notes.append(f"error reports / Model.replace differ from the specification on {len(bad)} of {len(done)} cases "
+                         f"(outside the listed properties; not a violation): {bad[:3]}")
+
+
 def run(ctx: Ctx) -> Result:
     res = Result(ctx.prop)
     mc = mc_or_die("MC_Lifecycle", "MC_Lifecycle.cfg", workers=4)
